@@ -134,7 +134,7 @@ func Check(c *Case) (res kit.Result) {
 		res.Failf("first allocation's shape changed to %+v", h)
 		return
 	}
-	if !growFirst(&res, c, ti, a, b) {
+	if !growFirst(&res, c, ti, a, b, fa) {
 		return
 	}
 	if c.L < c.K {
@@ -152,7 +152,7 @@ func Check(c *Case) (res kit.Result) {
 // growFirst: the first allocation grows beyond its capacity by an Append; the
 // second one (shape, contents) and a fresh allocation of the first one's shape
 // must not notice.
-func growFirst(res *kit.Result, c *Case, ti kit.TypeInfo, a, b kit.AnyBuf) bool {
+func growFirst(res *kit.Result, c *Case, ti kit.TypeInfo, a, b, old kit.AnyBuf) bool {
 	hb, sb := b.Hdr(), b.Slice(0, c.K2).Snap()
 	if a.Len()%c.C != 0 {
 		return true
@@ -171,9 +171,32 @@ func growFirst(res *kit.Result, c *Case, ti kit.TypeInfo, a, b kit.AnyBuf) bool 
 		return false
 	}
 	fresh := kit.AllocAny(c.T, signal.Allocator{Channels: c.C, Length: c.L, Capacity: c.K})
-	checkOne(res, "allocation of the first shape after the first allocation grew", ti, fresh, c.C, c.L, c.K)
+	ff := checkOne(res, "allocation of the first shape after the first allocation grew", ti, fresh, c.C, c.L, c.K)
 	if res.Fail != "" {
 		return false
+	}
+	// the storage the first allocation outgrew is still in use by the views cut from it before:
+	// it must not come back as the storage of a new allocation
+	if old != nil && ff != nil {
+		for i := 0; i < old.Len(); i++ {
+			old.Set(i, kit.IV(int64(31+i%60)))
+		}
+		for i, v := range ff.Snap() {
+			if !kit.SameVal(v, zero(ti)) {
+				res.Failf("a view cut from the first allocation before it grew was written through: sample %d of a later allocation of the same shape now reads %s (the outgrown storage was handed out again)", i, v)
+				return false
+			}
+		}
+		for i := 0; i < ff.Len(); i++ {
+			ff.Set(i, kit.IV(int64(2+i%9)))
+		}
+		for i, v := range old.Snap() {
+			if v.String() != fmt.Sprint(31+i%60) {
+				res.Failf("a later allocation of the same shape was written through: sample %d of a view cut from the first allocation before it grew now reads %s", i, v)
+				return false
+			}
+		}
+		res.Class("outgrownStorageStillViewed")
 	}
 	if c.K == 0 {
 		res.Class("emptyAllocationGrewOthersUnaffected")
@@ -279,7 +302,7 @@ func checkDirect(c *Case, ti kit.TypeInfo) (res kit.Result) {
 			return
 		}
 	}
-	if !growFirst(&res, c, ti, a, b) {
+	if !growFirst(&res, c, ti, a, b, nil) {
 		return
 	}
 	res.Class("nothingSlicedBeforeFirstStore")
